@@ -69,10 +69,10 @@ PROPS["C18"] = {
         "KNOWN FINDING D14 (unit load): load::read leaves log-only names in the file table that Work::lookup resolves command-line names against, so a name that occurs nowhere in the manifest but is known to .n2_db is accepted"],
 }
 PROPS["C19"] = {
-    "units": ["sched", "dirty", "run"],
-    "probes": {"sched": ["work::BuildStates::set", "work::Work::run"], "dirty": ["work::Work::record_finished"], "run": ["run::run_impl"]},
+    "units": ["sched", "dirty", "run", "proc"],
+    "probes": {"sched": ["work::BuildStates::set", "work::Work::run"], "dirty": ["work::Work::record_finished"], "run": ["run::run_impl"], "proc": ["process_posix::run_command"]},
     "level": "proof",
-    "assumptions": SCHED_ASSUME + ["unit run: run_impl prints `no work to do` exactly for Ok(Some(0)), `ran n tasks` with build()'s n otherwise, and build()'s n is the sum of the tasks_run increments of all Work::run calls (protocol stubs); Work::run's loop invariant `tasks_run == tasks_run_at_entry + (number of wait() results with Termination::Success)` (ghost counter on the trusted Runner model) pins tasks_run to the successful commands; adopt-mode steps are recorded without being counted",
+    "assumptions": SCHED_ASSUME + [PROC_ASSUME, "unit run: run_impl prints `no work to do` exactly for Ok(Some(0)), `ran n tasks` with build()'s n otherwise, and build()'s n is the sum of the tasks_run increments of all Work::run calls (protocol stubs); Work::run's loop invariant `tasks_run == tasks_run_at_entry + (number of wait() results with Termination::Success)` (ghost counter on the trusted Runner model) pins tasks_run to the successful commands; adopt-mode steps are recorded without being counted",
         "the progress implementations behind &dyn Progress only read the counts they are handed"],
 }
 SCAN_ASSUME = [
